@@ -1380,6 +1380,7 @@ func runFixture(r *mon.Run, spec *fixtureSpec, sample bool) {
 			return
 		}
 	}
+	fx.reloadPhase(r, r.Rand(fmt.Sprint("reload", spec.Idx)))
 	fx.candidatesCheck(r)
 	// pipeline mode: the store feeds the propagator, wired as in the control service
 	allow := fx.refPol.Prop.EffAllowISDLoop()
@@ -1455,7 +1456,7 @@ func checkC25(r *mon.Run) {
 	wg.Wait()
 
 	r.Require(int64(nFix)*20, 200, "handled", "db_read", "expected_stored", "expected_rejected", "observed_stored",
-		"resend", "candidates_check", "propagator_run", "prop_sent", "prop_withheld")
+		"resend", "reload_handled", "candidates_check", "propagator_run", "prop_sent", "prop_withheld")
 	need := []string{
 		"stored/core/Prop", "stored/core/CoreReg", "stored/core/Prop+CoreReg",
 		"stored/noncore/Prop", "stored/noncore/UpReg", "stored/noncore/DownReg",
